@@ -58,7 +58,11 @@ func runGroups(e *Env) {
 	router := e.Choose("cfg.router", 2) == 1
 	nsend := 1 + e.Choose("cfg.nsend", 12)
 	ninj := e.Choose("cfg.ninj", 25)
-	reader := []string{"ready", "slow"}[e.Choose("cfg.reader", 2)]
+	if e.Choose("cfg.bigburst", 4) == 0 {
+		ninj = 30 + e.Choose("cfg.ninjbig", 60)
+	}
+	reader := []string{"ready", "slow", "stalled"}[e.Choose("cfg.reader", 3)]
+	stalled := reader == "stalled"
 	nsenders := 1 + e.Choose("cfg.senders", 4)
 	lossy := !router && e.Choose("cfg.lossy", 3) == 0 // the tunnel retransmits: frames are re-packed
 	e.Cfg("router=%v sends=%d injected=%d reader=%s senders=%d lossy=%v", router, nsend, ninj, reader, nsenders, lossy)
@@ -134,6 +138,9 @@ func runGroups(e *Env) {
 		for {
 			if reader == "slow" && e.Choose("wl.rslow", 3) == 0 {
 				s.SleepFor(time.Duration(1+e.Choose("wl.rslowamt", 10)) * time.Millisecond)
+			}
+			if stalled {
+				s.WaitUntil("reader-stalled", func() bool { return !stalled })
 			}
 			ev, ok := simrt.Recv2("reader", in)
 			if !ok {
@@ -237,6 +244,8 @@ func runGroups(e *Env) {
 		})
 	}
 	e.WaitDone("workload", 300*time.Second, func() bool { return done && extraLeft == 0 })
+	s.SleepFor(time.Second)
+	stalled = false
 	s.SleepFor(3 * time.Second)
 	// close the underlying client: the group channel must close too
 	e.Call("close", 10*time.Second, func() {
